@@ -614,7 +614,7 @@ def run(scratch, verif):
                     continue
                 seen.add(key)
                 test, outs = native_replay(scratch.src, os.path.join(scratch.base, "tgt_replay"), pre, step)
-                rp = os.path.join(verif, "replays", "c14_mir_%d_%s.replay.txt" % (pre, step))
+                rp = os.path.join(os.environ.get("VERIF_REPLAY_DIR") or os.path.join(verif, "replays"), "c14_mir_%d_%s.replay.txt" % (pre, step))
                 os.makedirs(os.path.dirname(rp), exist_ok=True)
                 with open(rp, "w") as f:
                     f.write("engine: mir2smt (%s MIR)\nobligation: %s\nmodel: accumulator before the step = %d attribute bytes, next attribute value size = %s\n\nnative replay:\n  dev: %s\n  release: %s\n\ntest:\n%s" % (mode, what, pre, step, outs.get("dev"), outs.get("release"), test))
